@@ -59,18 +59,65 @@ Fixpoint list_rel {A} (r : A -> A -> bool) (a b : list A) : bool :=
   | _, _ => false
   end.
 
-(* a caption whose retimed start is within 2^-10 of 0 is "near the threshold": the float
-   implementation may legitimately land on either side; such inputs are counted separately *)
-Definition near_threshold (skew off : Q) (caps : list caption) : bool :=
-  existsb (fun c => Qle_bool (Qabs (c_start c * skew + off)) (1 # 1024) && negb (Qeq_bool (c_start c * skew + off) 0)) caps.
+(* ---- adjust: the decidable oracle ----------------------------------------------------------
+   Values are compared within 2^-10 us (binary64 rounding of t*skew+offset; the model is exact).
+   MEMBERSHIP is decided per caption by the sign of the exact x = start*skew+offset, except where
+   binary64 cannot decide it either: fl(fl(t*skew)+off) has the sign of x unless |x| <= |t*skew|*2^-53,
+   so a caption whose exact new start is non-zero and within  slack = (|t*skew| + |off|) * 2^-50  of zero
+   may legitimately be kept or dropped ("optional"). Every other caption, and every other language of
+   the same set, is still judged (no whole-case exclusion). *)
+Definition slack (skew off : Q) (c : caption) : Q :=
+  ((Qabs (c_start c * skew) + Qabs off) * (1 # 1125899906842624))%Q.
+
+Definition optional (skew off : Q) (c : caption) : bool :=
+  let x := (c_start c * skew + off)%Q in
+  negb (Qeq_bool x 0) && Qle_bool (Qabs x) (slack skew off c).
+
+(* walk the input list in order against the observed list *)
+Fixpoint match_adjust (skew off : Q) (caps obs : list caption) : bool :=
+  match caps with
+  | [] => match obs with [] => true | _ => false end
+  | c :: t =>
+      let x := spec_retime skew off c in
+      let keep := match obs with
+                  | o :: obs' => cap_close x o && match_adjust skew off t obs'
+                  | [] => false
+                  end in
+      if optional skew off c then keep || match_adjust skew off t obs
+      else if Qle_bool 0 (c_start x) then keep
+      else match_adjust skew off t obs
+  end.
 
 Definition ok_adjust (skew off : Q) (input obs : list (list caption)) : bool :=
-  list_rel (fun i o => list_rel cap_close (spec_adjust_lang skew off i) o) input obs.
+  list_rel (match_adjust skew off) input obs.
 
-(* obs1 = merge(input), obs2 = merge(merge(input)) *)
+(* information for the evidence: does the case contain an optional caption? *)
+Definition near_threshold (skew off : Q) (caps : list caption) : bool := existsb (optional skew off) caps.
+
+(* statement-level equivalence of captions (times as rationals, nodes equal) *)
+Definition cap_equiv (a b : caption) : Prop :=
+  c_start a == c_start b /\ c_end a == c_end b /\ c_nodes a = c_nodes b.
+
+(* ---- merge ---------------------------------------------------------------------------------- *)
+(* neighbouring runs have different spans: with "members share the head's span" this is maximality *)
+Fixpoint adjacent_distinct (rs : list (caption * list caption)) : Prop :=
+  match rs with
+  | r1 :: ((r2 :: _) as t) => span_eqb (fst r1) (fst r2) = false /\ adjacent_distinct t
+  | _ => True
+  end.
+
+(* no two consecutive captions share their span: nothing to merge *)
+Fixpoint no_adjacent_equal (caps : list caption) : bool :=
+  match caps with
+  | a :: ((b :: _) as t) => negb (span_eqb a b) && no_adjacent_equal t
+  | _ => true
+  end.
+
+(* the domain of the merge clauses: every caption has at least one node (Caption() enforces it) *)
 Definition nodes_nonempty (caps : list caption) : bool :=
   forallb (fun c => match c_nodes c with [] => false | _ => true end) caps.
 
+(* obs1 = merge(input), obs2 = merge(merge(input)) *)
 Definition ok_merge (input : list (list caption)) (obs1 obs2 : result (list (list caption))) : bool :=
   match obs1, obs2 with
   | Ok o1, Ok o2 =>
